@@ -23,7 +23,7 @@ import numpy as np
 from common import Ctx, Finding, Outcome, err_class
 
 PROPERTY = "C16"
-LEAN_TARGETS = ["QcelVerif.Props.C16", "QcelVerif.Driver.C16"]
+LEAN_TARGETS = ["QcelVerif.Props.C16", "QcelVerif.Lemmas.OrientUnique", "QcelVerif.Props.C16Unique", "QcelVerif.Driver.C16"]
 DRIVER = "QcelVerif/Driver/C16.lean"
 N = "QcelVerif.Orient."
 THEOREMS = [
@@ -41,6 +41,18 @@ THEOREMS = [
     (N + "nongeometric_untouched", "orientMol changes only the geometry: masses and the whole non-geometric payload are returned as they were"),
     (N + "orient_rigid_invariant_partial", "PARTIAL: rigid copy y = xR + t, eigen-frame uniqueness hypothesis V' = Rt V D (D = diag(+-1)), every column has an off-plane atom -> both orient to the same coordinates"),
     (N + "orient_idempotent_partial", "PARTIAL: Orth V, second-pass eigenvectors V2 = diag(+-1) (uniqueness hypothesis), every column has an off-plane atom -> orienting the oriented geometry returns it unchanged"),
+    (N + "eigframe_unique_of_regular", "any commutative ring, 3x3: V, V' orthogonal, both diagonalise the same T to the same diag(l), the differences l_i - l_j (i /= j) not zero divisors -> V' = V diag(d) with d_i^2 = 1 (symmetry of T not assumed: it follows)"),
+    (N + "eigframe_unique", "no zero divisors (every field): V, V' orthogonal eigen-frames of T for the same pairwise DISTINCT l -> V' = V diag(d0,d1,d2), each d_i = 1 or -1"),
+    (N + "eigvals_unique", "linearly ordered ring: two exact eigen-frames of the same T, l strictly ascending, l' ascending -> l' = l (the ascending eigenvalue triple is unique)"),
+    (N + "eigframe_degenerate_not_unique", "sharpness witness over Q: with a repeated eigenvalue (T = diag(1,1,2), V = 1, V' = quarter turn) every other hypothesis of eigframe_unique holds and the conclusion fails"),
+    (N + "orientTensor_rigid", "y = xR + t, R orthogonal, one mass per row, total mass /= 0 -> tensor handed to eigh for y = Rt (tensor for x) R"),
+    (N + "eigframe_rigid", "... and if V is orthogonal with Vt T(x) V = L then Rt V is orthogonal with (Rt V)t T(y) (Rt V) = L: eigen-frames move with the molecule, moments unchanged"),
+    (N + "isEigFrame_of_exact", "converse of isEigFrame_exact: Orth V, Vt T V = diag l, l ascending -> the tolerance-0 certificate function returns true"),
+    (N + "isEigFrame_rigid", "a tolerance-0 certificate (V, l) for x yields the certificate (Rt V, l) for the rigid copy y (the second hypothesis of orient_rigid_invariant is satisfiable whenever the first is)"),
+    (N + "rigid_moments_invariant", "two exact certificates, one for x with distinct moments and one for the rigid copy y: the certified moment triples are equal"),
+    (N + "idempotent_moments", "exact certificate (distinct moments) for x, out = oriented x, any exact certificate (V2, l2) for out -> l2 = l"),
+    (N + "orient_rigid_invariant", "FULL (exact arithmetic): y = xR + t, R orthogonal; ANY exact certificates (V,l) for x and (V',l') for y, l.x < l.y < l.z, every column of the rotated geometry has an off-plane atom -> orientCore y V' = orientCore x V; no relation between V and V' assumed (V' = Rt V diag(+-1) is derived)"),
+    (N + "orient_idempotent", "FULL (exact arithmetic): exact certificate (V,l) for x with l.x < l.y < l.z, orientCore x V = ok out, ANY exact certificate (V2,l2) for out, every column of out has an off-plane atom -> orientCore out V2 = ok out (V2 = diag(+-1), l2 = l derived); the implementation re-orients the ROUNDED geometry - known finding C16-flushed-decider-idempotence"),
     (N + "orientCore_zero_mass", "masses summing to zero -> the model returns the ZeroDivision error (np.average), never a repaired geometry"),
     (N + "flushed_decider_witness", "concrete exact-rational witness (kernel-evaluated test) of the known finding: a legitimate eigen-frame, atom 0 at 3e-7 off a plane decides the sign, float_prep prints it as 0 and the first non-zero atom of that column is negative"),
     (N + "floatPrep_small", "|v| < 10^-8 -> float_prep(v, 8) = 0 (sub-noise columns, e.g. planar/linear molecules, print as exact zeros whatever their sign)"),
@@ -55,7 +67,7 @@ TRUSTED_BASE = [
 ASSUMPTIONS = [
     "validated molecules of 1-12 atoms (plus a 12-case unvalidated stream with zero total mass to exercise the ZeroDivisionError branch of the model; no oracle demand there)",
     "theorems are over exact fields: orthogonality and diagonalisation of V are hypotheses, certified per call to ~1e-15; floating-point error of the implementation is covered by the correspondence tolerances only",
-    "uniqueness claims (rigid copies, double orientation) are demanded for asymmetric tops with relative gaps between consecutive moments >= 1e-3; eigen-frame uniqueness itself is a hypothesis of the two _partial theorems",
+    "uniqueness claims (rigid copies, double orientation) are demanded for asymmetric tops with relative gaps between consecutive moments >= 1e-3; eigen-frame uniqueness is proved (eigframe_unique / eigvals_unique) for EXACT certificates with pairwise distinct moments and used in orient_rigid_invariant / orient_idempotent; a quantitative (perturbation) version for the ~1e-15 certified residuals is not proved",
     "'within the geometry rounding' = float_prep as implemented: rounding to 1e-8 and flushing |x| < 5^-9 = 5.12e-7 to zero",
 ]
 RULE = (
@@ -69,7 +81,8 @@ RULE = (
 LEVEL_TEXT = (
     "proof (partial): centring, isometry, tensor transformation law, diagonal tensor with the certified eigenvalues as moments, the exact "
     "behaviour of the phase loop and untouched fields are proved for all inputs over any (ordered) field; idempotence and rigid invariance "
-    "are proved only under an explicit eigen-frame uniqueness hypothesis and for columns having an off-plane atom. eigh is a parameter "
+    "are proved in exact arithmetic for any two exact eigen-frame certificates, under the property's own qualifiers (pairwise distinct "
+    "principal moments, an off-plane atom in every column); eigen-frame uniqueness is proved, not assumed. eigh is a parameter "
     "certified per call; floating point is tied by tolerance-based correspondence, not proved."
 )
 TECHNIQUE = "Lean 4 proof over generic fields + per-call eigen-frame certificate + exact-rational differential correspondence + Python oracle"
